@@ -104,6 +104,7 @@ Qed.
 
 Section Cycle.
 Variable loads : label -> list label.
+Variable bad : label -> bool.
 
 Definition walker_ok (Ef : label -> option label) (a w cur : label) (seen : list label) : Prop :=
   exists i k, iter Ef i a = Some cur /\ 1 <= k /\ iter Ef k cur = Some w /\
